@@ -242,6 +242,36 @@ func mkNode(name string, n int) *node {
 	return nd
 }
 
+// a helper that defers, called in tail position: its deferred calls run when the caller returns,
+// before the caller's own deferred calls
+func closing(w *strings.Builder, name string) (string, error) {
+	defer fmt.Fprintln(w, "closed", name)
+	if name == "" {
+		return "", errors.New("no name")
+	}
+	defer fmt.Fprintln(w, "flushed", name)
+	return "<" + name + ">", nil
+}
+
+// a result-less helper that defers, called as a statement in the middle of its caller
+func guardedNote(w *strings.Builder, b *box, by int) {
+	defer fmt.Fprintln(w, "released", b.v)
+	if by == 0 {
+		return
+	}
+	b.add(by)
+	fmt.Fprintln(w, "held", b.v)
+}
+
+func tail(w *strings.Builder, name string) (string, error) {
+	defer fmt.Fprintln(w, "tail done", name)
+	fmt.Fprintln(w, "tail start", name)
+	if name == "skip" {
+		return "skipped", nil
+	}
+	return closing(w, name)
+}
+
 func deferred(w *strings.Builder) {
 	n := 1
 	defer logDone(w, "first", n)
@@ -414,6 +444,29 @@ func run(w *strings.Builder) error {
 		} else {
 			fmt.Fprintln(w, "no node for", k)
 		}
+	}
+	// an inlined assignment as the last statement of a case clause (the end label needs a statement)
+	for _, k := range []string{"a", "zz", ""} {
+		var v int
+		var err error
+		switch {
+		case k == "":
+			err = errors.New("no key")
+		case len(k) == 1:
+			v, err = lookup(m, k)
+		default:
+			v, err = lookupOrZero(m, k)
+		}
+		fmt.Fprintln(w, "switch", k, v, err)
+	}
+	gb := &box{v: 1}
+	for _, by := range []int{2, 0, 5} {
+		guardedNote(w, gb, by)
+		fmt.Fprintln(w, "after", gb.v)
+	}
+	for _, nm := range []string{"x", "", "skip"} {
+		v, err := tail(w, nm)
+		fmt.Fprintln(w, "tail:", v, err)
 	}
 	// generic receiver
 	var gc cache[string, int]
